@@ -26,6 +26,7 @@ const (
 	scRefused3  = "refused:3:5:84"
 	scPart4     = "partition:4:2:10:24:40"
 	scPart5     = "partition:5:3:10:30:50"
+	scDups3     = "dups:3:45"
 )
 
 func nodesOf(n int) []int {
@@ -52,12 +53,12 @@ func standardPhases(mons []string, suffix int, thorough bool) []Phase {
 		add("S1 n=3 depth 5 {6 gossip pairs,T0,T1,T2}", s1Items("s1:3:0", 5, 2, mons))
 	}
 	// S3: deviation bounded around fair seeds
-	seeds := []string{scStatic3, scStatic4, scSilent4, scSilent5, scLate4, scJoin3, scLeave4, scJoin2, scTwoLeaves, scJoinLeave, scLaggards7, scLaggards4, scRejoin4, scRefused3, scPart4, scPart5}
+	seeds := []string{scStatic3, scStatic4, scSilent4, scSilent5, scLate4, scJoin3, scLeave4, scJoin2, scTwoLeaves, scJoinLeave, scLaggards7, scLaggards4, scRejoin4, scRefused3, scPart4, scPart5, scDups3}
 	var d0 []sched.Item
 	for _, s := range seeds {
 		d0 = append(d0, s3Items(s, 0, nil, nil, mons, suffix)...)
 	}
-	add("S3 d=0 on 16 seeds (static 3/4, silent 4/5, late witness, join 3->4, leave 4->3, join 2->3, two leaves in one block, join+leave in one block, 2 one-way laggards of 7, 1 of 4, leave then re-join, join refused by the application, partitions 2|2 and 3|2 that heal)", d0)
+	add("S3 d=0 on 17 seeds (static 3/4, silent 4/5, late witness, join 3->4, leave 4->3, join 2->3, two leaves in one block, join+leave in one block, 2 one-way laggards of 7, 1 of 4, leave then re-join, join refused by the application, partitions 2|2 and 3|2 that heal, identical transaction bytes submitted repeatedly at one node and at several nodes)", d0)
 	// S2: seed prefix + exhaustive window + fair suffix
 	w3 := "win:3:-1:" + scStatic3
 	wj := "win:4:-1:" + scJoin3
@@ -98,7 +99,7 @@ func standardPhases(mons []string, suffix int, thorough bool) []Phase {
 			d1("one-way laggard of 4 (late witnesses of an active creator)", scLaggards4, 4, 1, 4, 0)
 			d1("leave4to3", scLeave4, 4, 1, 4, 0)
 		case "C04":
-			d1("static3", scStatic3, 3, 0, 1, 0)
+			d1("static3 with identical transaction bytes everywhere", scDups3, 3, 0, 2, 0)
 			d1("partition 2|2 that heals", scPart4, 4, 1, 4, 0)
 			d1("join3to4", scJoin3, 4, 2, 3, 0)
 			d1("one-way laggard of 4", scLaggards4, 4, 2, 6, 0)
